@@ -285,7 +285,9 @@ def c01(ctx):
         else:
             raise Broken("GarbleTrace failed: %s\n%s" % (t["status"], t["out"][-3000:]))
         rows = read_ndjson(trace)
-        r2 = [dict(r) for r in rows]
+        # the first recorded run only: a refused trace makes TLC exhaust every assignment of the unlogged permute bits
+        first = next((i for i, r in enumerate(rows) if i > 0 and r["ev"] == "circ"), len(rows))
+        r2 = [dict(r) for r in rows[:first]]
         idx = [i for i, r in enumerate(r2) if r["ev"] == "egate"]
         r2[idx[len(idx) // 2]]["bit"] ^= 1
         p = os.path.join(ctx.tmp, "selftest", "garble_trace.ndjson")
